@@ -177,3 +177,57 @@ package bloom
 //@   requires forall k :: 0 <= k && k < len(tx.msgTx.TxIn) ==> tx.msgTx.TxIn[k] != nil
 //@   ensures !held(bf.mtx)
 //@   modifies bf.mtx, bf.msgFilterLoad.Filter[*], tx.txHash
+
+//@ func bloom.(*blockFilterer).checkFilterTx
+//@   requires bf.filter != nil && !held(bf.filter.mtx) && bf.matchedIndices != nil
+//@   requires bf.filter.msgFilterLoad != nil ==> len(bf.filter.msgFilterLoad.Filter) <= 36000
+//@   requires tx != nil && tx.msgTx != nil
+//@   requires forall k :: 0 <= k && k < len(tx.msgTx.TxOut) ==> tx.msgTx.TxOut[k] != nil
+//@   requires forall k :: 0 <= k && k < len(tx.msgTx.TxIn) ==> tx.msgTx.TxIn[k] != nil
+//@   mapinv map[chainhash.Hash][]*bloom.txWithIndex: forall k :: 0 <= k && k < len($v) ==> $v[k] != nil && allocated($v[k]) && $v[k].tx != nil && $v[k].tx.msgTx != nil
+//@   mapinv map[chainhash.Hash][]*bloom.txWithIndex: forall k :: 0 <= k && k < len($v) ==> forall j :: 0 <= j && j < len($v[k].tx.msgTx.TxOut) ==> $v[k].tx.msgTx.TxOut[j] != nil
+//@   mapinv map[chainhash.Hash][]*bloom.txWithIndex: forall k :: 0 <= k && k < len($v) ==> forall j :: 0 <= j && j < len($v[k].tx.msgTx.TxIn) ==> $v[k].tx.msgTx.TxIn[j] != nil
+//@   ensures !held(bf.filter.mtx)
+//@   ensures $calls_MatchTxAndUpdate == 1
+//@   ensures !$ret_MatchTxAndUpdate#1 ==> $calls_checkFilterTx == 0
+//@   modifies bf.filter.mtx, bf.filter.msgFilterLoad.Filter[*], any bchutil.Tx.txHash, *bf.matchedIndices
+//@   loop 1 invariant !held(bf.filter.mtx) && $calls_checkFilterTx == $i && $calls_MatchTxAndUpdate == 1
+//@   assert after MatchTxAndUpdate#1: $arg0 == bf.filter && $arg1 == tx
+//@   assert after TxHash#1: $arg0 == tx.msgTx
+//@   assert after checkFilterTx#1: $arg0 == bf && $arg1 == dependentTxs[$i1].tx && $arg2 == dependentTxs[$i1].index && $arg3 == inputs
+
+//@ func bloom.GetMatchedIndices
+//@   requires block != nil && filter != nil && !held(filter.mtx) && block.msgBlock != nil
+//@   requires filter.msgFilterLoad != nil ==> len(filter.msgFilterLoad.Filter) <= 36000
+//@   requires len(block.transactions) == 0 || len(block.transactions) == len(block.msgBlock.Transactions)
+//@   requires forall k :: 0 <= k && k < len(block.transactions) ==> (block.transactions[k] != nil ==> block.transactions[k].msgTx == block.msgBlock.Transactions[k] && block.transactions[k].txIndex == k)
+//@   requires block.txnsGenerated ==> len(block.transactions) == len(block.msgBlock.Transactions) && forall k :: 0 <= k && k < len(block.transactions) ==> block.transactions[k] != nil
+//@   requires block.blockHash != nil ==> forall k :: 0 <= k && k < 32 ==> block.blockHash[k] == wire.bh(block.msgBlock.ref, block.msgBlock.off, k)
+//@   requires forall k :: 0 <= k && k < len(block.msgBlock.Transactions) ==> block.msgBlock.Transactions[k] != nil
+//@   requires forall k :: 0 <= k && k < len(block.msgBlock.Transactions) ==> (forall j :: 0 <= j && j < len(block.msgBlock.Transactions[k].TxOut) ==> block.msgBlock.Transactions[k].TxOut[j] != nil) && (forall j :: 0 <= j && j < len(block.msgBlock.Transactions[k].TxIn) ==> block.msgBlock.Transactions[k].TxIn[j] != nil)
+//@   mapinv map[chainhash.Hash][]*bloom.txWithIndex: forall k :: 0 <= k && k < len($v) ==> $v[k] != nil && allocated($v[k]) && $v[k].tx != nil && $v[k].tx.msgTx != nil
+//@   mapinv map[chainhash.Hash][]*bloom.txWithIndex: forall k :: 0 <= k && k < len($v) ==> forall j :: 0 <= j && j < len($v[k].tx.msgTx.TxOut) ==> $v[k].tx.msgTx.TxOut[j] != nil
+//@   mapinv map[chainhash.Hash][]*bloom.txWithIndex: forall k :: 0 <= k && k < len($v) ==> forall j :: 0 <= j && j < len($v[k].tx.msgTx.TxIn) ==> $v[k].tx.msgTx.TxIn[j] != nil
+//@   ensures !held(filter.mtx)
+//@   ensures $calls_checkFilterTx == len(block.msgBlock.Transactions)
+//@   loop 1 invariant !held(filter.mtx) && $calls_checkFilterTx == $i && bf.filter == filter && bf.matchedIndices != nil
+//@   loop 1 invariant filter.msgFilterLoad == old(filter.msgFilterLoad) && (filter.msgFilterLoad != nil ==> len(filter.msgFilterLoad.Filter) <= 36000)
+//@   loop 1 invariant len($ret_Transactions#1) == len(block.msgBlock.Transactions)
+//@   loop 1 invariant forall k :: 0 <= k && k < len($ret_Transactions#1) ==> $ret_Transactions#1[k] != nil && $ret_Transactions#1[k].msgTx == block.msgBlock.Transactions[k]
+//@   loop 1 invariant forall k :: 0 <= k && k < len(block.msgBlock.Transactions) ==> block.msgBlock.Transactions[k] != nil
+//@   loop 1 invariant forall k :: 0 <= k && k < len(block.msgBlock.Transactions) ==> (forall j :: 0 <= j && j < len(block.msgBlock.Transactions[k].TxOut) ==> block.msgBlock.Transactions[k].TxOut[j] != nil) && (forall j :: 0 <= j && j < len(block.msgBlock.Transactions[k].TxIn) ==> block.msgBlock.Transactions[k].TxIn[j] != nil)
+//@   loop 2 invariant $calls_checkFilterTx == $i1 && !held(filter.mtx) && bf.filter == filter && bf.matchedIndices != nil
+//@   loop 2 invariant filter.msgFilterLoad == old(filter.msgFilterLoad) && (filter.msgFilterLoad != nil ==> len(filter.msgFilterLoad.Filter) <= 36000)
+//@   loop 2 invariant tx != nil && tx.msgTx != nil && tx == $ret_Transactions#1[$i1] && tx.msgTx == block.msgBlock.Transactions[$i1]
+//@   loop 2 invariant (forall j :: 0 <= j && j < len(tx.msgTx.TxOut) ==> tx.msgTx.TxOut[j] != nil) && (forall j :: 0 <= j && j < len(tx.msgTx.TxIn) ==> tx.msgTx.TxIn[j] != nil)
+//@   loop 2 invariant len($ret_Transactions#1) == len(block.msgBlock.Transactions)
+//@   loop 2 invariant forall k :: 0 <= k && k < len($ret_Transactions#1) ==> $ret_Transactions#1[k] != nil && $ret_Transactions#1[k].msgTx == block.msgBlock.Transactions[k]
+//@   loop 2 invariant forall k :: 0 <= k && k < len(block.msgBlock.Transactions) ==> block.msgBlock.Transactions[k] != nil
+//@   loop 2 invariant forall k :: 0 <= k && k < len(block.msgBlock.Transactions) ==> (forall j :: 0 <= j && j < len(block.msgBlock.Transactions[k].TxOut) ==> block.msgBlock.Transactions[k].TxOut[j] != nil) && (forall j :: 0 <= j && j < len(block.msgBlock.Transactions[k].TxIn) ==> block.msgBlock.Transactions[k].TxIn[j] != nil)
+//@   assert after checkFilterTx#1: $arg1 == $ret_Transactions#1[$i1] && $arg2 == $i1 && $arg3 == inputs
+//@   assert after append#1: len($ret) == len($arg0) + 1
+//@   assert after append#1: $ret[len($arg0)] != nil && $ret[len($arg0)].tx == tx
+//@   assert after append#1: forall k :: 0 <= k && k < len($arg0) ==> $ret[k] == $arg0[k]
+//@   assert after append#1: forall k :: 0 <= k && k < len($arg0) ==> $ret[k] != nil && $ret[k].tx != nil && $ret[k].tx.msgTx != nil
+//@   assert after append#1: forall k :: 0 <= k && k < len($arg0) ==> forall j :: 0 <= j && j < len($ret[k].tx.msgTx.TxOut) ==> $ret[k].tx.msgTx.TxOut[j] != nil
+//@   assert after append#1: forall k :: 0 <= k && k < len($arg0) ==> forall j :: 0 <= j && j < len($ret[k].tx.msgTx.TxIn) ==> $ret[k].tx.msgTx.TxIn[j] != nil
